@@ -29,7 +29,7 @@
 (*   "MetaSlack"     Metadata.UnmarshalBinary ignores bytes after the deadline                  *)
 (*   "CountPresize"  Metadata.UnmarshalBinary sizes the header map by the claimed count before  *)
 (*                   checking that the section can hold that many headers                       *)
-(* Model-only mutants (used to show the theorems bite): "NoMaxCheck", "NameLenOffByOne".        *)
+(* Model-only mutant (used to show the allocation theorem bites): "NoMaxCheck".                 *)
 EXTENDS Integers, Sequences, FiniteSets, TLC, Json
 CONSTANTS Defects
 
@@ -149,10 +149,15 @@ Rej(free, oob, hint) == [ok |-> FALSE, free |-> free, oob |-> oob, hint |-> hint
 Acc(fr, hint)        == [ok |-> TRUE,  free |-> FALSE, oob |-> FALSE, hint |-> hint, f |-> <<fr>>]
 
 (* registry oracle, idealised: the region names a type iff it equals a catalogue name *)
-NameIdx(S, a, nl) == {j \in 1..Len(Cat.msgs) : Len(Cat.msgs[j].name) = nl /\ Region(S, a, a + nl) = RunsOf(Cat.msgs[j].name)}
+TNames == {Cat.msgs[j].tname : j \in 1..Len(Cat.msgs)}
+TNameRuns == [t \in TNames |-> RunsOf(Cat.msgs[CHOOSE j \in 1..Len(Cat.msgs) : Cat.msgs[j].tname = t].name)]
+TNameLen  == [t \in TNames |-> Len(Cat.msgs[CHOOSE j \in 1..Len(Cat.msgs) : Cat.msgs[j].tname = t].name)]
+PayRunsOf == [j \in 1..Len(Cat.msgs) |-> PayRuns(Cat.msgs[j])]
+NameIdx(S, a, nl) == IF \A t \in TNames : TNameLen[t] # nl THEN {}
+                     ELSE LET rg == Region(S, a, a + nl) IN {t \in TNames : TNameLen[t] = nl /\ rg = TNameRuns[t]}
 (* parser oracle, idealised *)
-PayIdx(S, a, b, tname) == {j \in 1..Len(Cat.msgs) : Cat.msgs[j].tname = tname /\ Cat.msgs[j].plen = b - a
-                                                     /\ Region(S, a, b) = PayRuns(Cat.msgs[j])}
+PayIdx(S, a, b, tname) == LET js == {j \in 1..Len(Cat.msgs) : Cat.msgs[j].tname = tname /\ Cat.msgs[j].plen = b - a} IN
+                          IF js = {} THEN {} ELSE LET rg == Region(S, a, b) IN {j \in js : rg = PayRunsOf[j]}
 
 (* proto.Unmarshal(data[a:b]) into a new message of the named type *)
 Payload(S, a, b, tname, md, hint) ==
@@ -195,10 +200,10 @@ Legacy(S, pos, dlen) ==
   ELSE LET ml == U32(S, pos) IN
   IF dlen < ml \/ ml < 8 THEN Rej(FALSE, FALSE, 0)
   ELSE LET nl == U32(S, pos + 4) IN
-  IF (IF "NameLenOffByOne" \in Defects THEN 8 + nl > ml + 1 ELSE 8 + nl > ml) THEN Rej(FALSE, FALSE, 0)
+  IF 8 + nl > ml THEN Rej(FALSE, FALSE, 0)
   ELSE LET js == NameIdx(S, pos + 8, nl) IN
   IF js = {} THEN Rej(FALSE, FALSE, 0)
-  ELSE Payload(S, pos + 8 + nl, pos + ml, Cat.msgs[CHOOSE j \in js : TRUE].tname, NoMD, 0)
+  ELSE Payload(S, pos + 8 + nl, pos + ml, CHOOSE t \in js : TRUE, NoMD, 0)
 
 (* ProtoSerializer.UnmarshalBinaryWithMetadata(data) *)
 Meta(S, pos, dlen) ==
@@ -209,7 +214,7 @@ Meta(S, pos, dlen) ==
   IF 12 + nl + mlen > ml THEN Rej(FALSE, FALSE, 0)
   ELSE LET js == NameIdx(S, pos + 12, nl) IN
   IF js = {} THEN [Rej(FALSE, FALSE, 0) EXCEPT !.f = <<"type">>]
-  ELSE LET tn == Cat.msgs[CHOOSE j \in js : TRUE].tname
+  ELSE LET tn == CHOOSE t \in js : TRUE
            ms == pos + 12 + nl
            m  == IF mlen > 0 THEN MetaSection(S, ms, ms + mlen) ELSE [ok |-> TRUE, hint |-> 0, md |-> NoMD] IN
        IF ~m.ok THEN [Rej(FALSE, FALSE, m.hint) EXCEPT !.f = <<"meta">>]
